@@ -16,7 +16,7 @@ TIMEOUT = 1800
 
 
 def generate(rng, tier):
-    n = {"quick": 120, "search": 200, "thorough": 1500}[tier]
+    n = {"quick": 120, "search": 200, "thorough": 450}[tier]
     cases = []
     for over in G.OVERS:
         for _ in range(1 if tier == "quick" else 3):
